@@ -239,12 +239,12 @@ def gen_op(rng, st):
     suffix = rng.choice(['ffi1001', 'ict', 'ict', 'txt', ''])
     ops.append({'op': 'write', 'cid': cid, 'spec': gen_spec(rng),
                 'file': ('w%d.%s' % (cid, suffix)) if suffix else 'w%d' % cid})
-    ops.append({'op': 'judge', 'cid': cid, 'which': 'ack', 'how': rng.choice(['explicit', 'auto'])})
+    ops.append({'op': 'judge', 'cid': cid, 'which': 'ack', 'how': rng.choice(['explicit', 'auto', 'auto', 'auto-pathlike'])})
     sched = rng.choice(SCHEDULES)
     ops.append({'op': 'handle', 'cid': cid, 'do': sched})
     if sched != 'retain':
         ops.append({'op': 'judge', 'cid': cid, 'which': 'path',
-                    'how': rng.choice(['explicit', 'auto'])})
+                    'how': rng.choice(['explicit', 'auto', 'auto', 'auto-pathlike'])})
     ops.append(rng.choice([{'op': 'clock_jump', 'seconds': rng.choice([43200, 86400, 31622400])},
                            {'op': 'collect'}]))
     ops.append({'op': 'second', 'cid': cid, 'from': rng.choice(['ack', 'path']),
@@ -264,7 +264,7 @@ def gen_op(rng, st):
                        'scale': rng.choice([1, 1, 0.1, 10, 0.001, 2.5]), 'raw': raw})
         ops.append({'op': 'stub_cycle', 'cid': cid, 'nrec': nrec, 'vars': sv,
                     'file': 'stub%d.%s' % (cid, rng.choice(['ict', 'ffi1001'])),
-                    'how': rng.choice(['explicit', 'auto'])})
+                    'how': rng.choice(['explicit', 'auto', 'auto', 'auto-pathlike'])})
     st.queue = ops
     return st.queue.pop(0)
 
@@ -273,6 +273,9 @@ def _open(path, how):
     import PseudoNetCDF as pnc
     if how == 'auto':
         return pnc.pncopen(path)
+    if how == 'auto-pathlike':
+        import pathlib
+        return pnc.pncopen(pathlib.Path(path))
     return pnc.pncopen(path, format='ffi1001')
 
 
@@ -299,7 +302,7 @@ def _judge(st, wr, path, which, how):
                         sig={'what': 'counts'})
     try:
         f = _open(path, how)
-        if how == 'auto':
+        if how.startswith('auto'):
             st.stats['auto_opens'] += 1
             if type(f).__name__ != 'ffi1001':
                 raise Violation('auto-detected-as-other-format',
